@@ -616,6 +616,11 @@ def run_shard(sh, spec):
     tree = Tree(rng)
     _state['base'] = tree.base
     faults = None
+    # the process serves from another working directory than the one it had when clastic was imported (a daemon that
+    # changes directory at start-up): a relative search path means what it means *now*
+    cwd0 = os.getcwd()
+    os.chdir(tree.area)
+    sh.hit('working-directory-changed-since-import')
     try:
         cfgs = configs(tree)
         vocab = vocabulary(tree)
@@ -664,6 +669,7 @@ def run_shard(sh, spec):
                 sh.sample('faults-%s-%s' % (cfg.label, '/'.join(segs)), {'cfg': cfg.label, 'path': cfg.raw_path(segs),
                                                                          'filesystem_calls': sites, 'fault_points': n})
     finally:
+        os.chdir(cwd0)
         if faults is not None:
             faults.remove()
         _state['base'] = None
@@ -676,6 +682,8 @@ def replay(sh, case, spec):
     tree = Tree(rng)
     _state['base'] = tree.base
     faults = None
+    cwd0 = os.getcwd()
+    os.chdir(tree.area)
     try:
         roots = [tree.root1] if case['roots'] == 1 else [tree.root1, tree.root2]
         if case.get('root_order'):
@@ -691,6 +699,7 @@ def replay(sh, case, spec):
             sh.notes['exchange'] = ex.brief()
             sh.notes['class'] = kind
     finally:
+        os.chdir(cwd0)
         if faults is not None:
             faults.remove()
         _state['base'] = None
